@@ -134,6 +134,8 @@ def mechanical(ctx, P, s, N, fn, graph, operand, extra):
             l, r = N.term(node["l"]), N.term(node["r"])
 
             def is_len(t):
+                if t[0] == "field" and t[2] == "0" and t[1][0] == "elem" and t[1][1][0] == "call" and t[1][1][1] == "Iterator::enumerate":
+                    return True          # the position handed out by enumerate() is below the length of what is enumerated
                 return t[0] == "call" and t[1] in GD.LEN_FNS
 
             def small(t):
@@ -142,7 +144,7 @@ def mechanical(ctx, P, s, N, fn, graph, operand, extra):
                 except (TypeError, ValueError):
                     return False
             if (is_len(l) or small(l)) and (is_len(r) or small(r)) and (is_len(l) or is_len(r)):
-                return True, "a collection length is at most isize::MAX, so adding another length or a small constant cannot overflow usize"
+                return True, "a collection length (or a position below it) is at most isize::MAX, so adding another length or a small constant cannot overflow usize"
         return None
     conds = GD.dominating(N, fn["body"], node)
     if s.kind == "index":
